@@ -152,6 +152,10 @@ class RxScn(Scenario):
 
             async def request_response(self, payload):
                 calls.append(('request_response', pl(payload)))
+                if scn.kind == 'rr-error':
+                    return rx.throw(RuntimeError('handler observable fails'))
+                if scn.kind == 'rr-two':
+                    return rx.from_iterable([P(b'answer', b'am'), P(b'second')])
                 return rx.empty() if scn.empty else rx.of(P(b'answer', b'am'))
 
             async def request_stream(self, payload):
@@ -197,7 +201,7 @@ class RxScn(Scenario):
             elif kind == 'channel':
                 up = rx.from_iterable(els(b'u', self.up)) if self.up >= 0 else None
                 o = rc.request_channel(P(b'req'), request_limit=self.limit, observable=up)
-            elif kind == 'rr':
+            elif kind in ('rr', 'rr-error', 'rr-two'):
                 o = rc.request_response(P(b'req', b'rm'))
             elif kind == 'fnf':
                 o = rc.fire_and_forget(P(b'req', b'rm'))
@@ -317,6 +321,14 @@ class RxScn(Scenario):
                 completed_on_wire = any(ev[0] == 'rx' and ev[1] == 'c0' and ev[2].sid == sid and ((ev[2].type == R.PAYLOAD and ev[2].complete) or ev[2].type == R.ERROR) for ev in log[:q_after])
                 if sid is not None and not completed_on_wire and len(cancels) != 1:
                     out.append(('C20.dispose-cancels', 'C20.dispose-cancels | %s | cancels=%d' % (tag, len(cancels)), 'dispose() of a pending %s produced %d CANCEL frames' % (self.kind, len(cancels))))
+        elif self.kind == 'rr-error' and not disposed:
+            if sig != 'E':
+                out.append(('C20.terminal-preserved', 'C20.terminal-preserved | %s | response | %s-instead-of-E' % (self.api, sig or 'nothing'),
+                            'the handler observable failed; the client observer saw %s' % (obs.signals,)))
+        elif self.kind == 'rr-two' and not disposed:
+            # a response is one element: the first one the handler observable produced
+            if sig not in ('NC',) or obs.signals[0][1] != (b'answer', b'am'):
+                out.append(('C20.elements-preserved', 'C20.elements-preserved | %s | response | two-element-observable' % self.api, 'observer signals %s' % (obs.signals,)))
         elif self.kind == 'rr' and not disposed:
             want = 'C' if self.empty else 'NC'
             if sig != want or (not self.empty and obs.signals[0][1] != (b'answer', b'am')):
@@ -512,7 +524,7 @@ def make_units(tier):
                                       empty=False, bound=1 if tier == 'quick' else 2, ending=ending))
                     units.append(dict(api=api, kind='channel-corehandler', k=n_el, limit=limit, err=None, source='plain', dispose=False, up=2, flavour='tcp',
                                       empty=False, bound=1 if tier == 'quick' else 2, ending=ending))
-        for kind, empty in (('rr', False), ('rr', True), ('fnf', False), ('push', False)):
+        for kind, empty in (('rr', False), ('rr', True), ('rr-error', False), ('fnf', False), ('push', False)):
             for flavour in ('tcp', 'msg'):
                 units.append(dict(api=api, kind=kind, k=0, limit=MAXN, err=None, source='plain', dispose=False, up=0, flavour=flavour, empty=empty, bound=bound))
     return units
